@@ -27,6 +27,7 @@ impl From<IntMode> for u8 {
 }
 
 /// Z80 Processor struct
+#[cfg_attr(rustzx_verif, derive(Clone))]
 pub struct Z80 {
     /// Contains Z80 registers data
     pub regs: Regs,
@@ -48,6 +49,14 @@ impl Default for Z80 {
             int_mode: IntMode::Im0,
             active_prefix: Prefix::None,
         }
+    }
+}
+
+#[cfg(rustzx_verif)]
+impl Z80 {
+    /// Verification hook: pending prefix byte (0 when none)
+    pub fn verif_active_prefix(&self) -> u8 {
+        self.active_prefix.to_byte().unwrap_or(0)
     }
 }
 
